@@ -1,8 +1,8 @@
 package fetcher
 
-// C18 (fetcher): Fetch with a stub beacon node and stub aggsigdb / dutydb query functions, two subscribers; also
-// the early-fetch cache (FetchOnly then Fetch). Parties: the definition set handed in, the private cache entry,
-// each subscriber's set. (The beacon node's response object is owned by the fetcher and not a party.)
+// C18 (fetcher): Fetch with a stub beacon node and stub aggsigdb / dutydb query functions, three subscribers; also
+// the early-fetch cache (FetchOnly then Fetch). Parties: the definition set handed in, the cache entry if the
+// fetcher still holds one after Fetch, each subscriber's set. (The beacon node's response object is owned by the fetcher and not a party.)
 
 import (
 	"context"
@@ -150,7 +150,7 @@ func c18spec(t *testing.T, fx *c18fix, u alias.Unit, master any, cached bool) (a
 		})
 		f.RegisterSyncContributionV2(func(uint64) bool { return v2 })
 		called := 0
-		for _, n := range []string{"sub1", "sub2"} {
+		for _, n := range []string{"sub1", "sub2", "sub3"} {
 			n := n
 			f.Subscribe(func(_ context.Context, _ core.Duty, set core.UnsignedDataSet) error {
 				called++
@@ -169,15 +169,18 @@ func c18spec(t *testing.T, fx *c18fix, u alias.Unit, master any, cached bool) (a
 				w.Fail("nothing cached: %v", err)
 				return
 			}
-			w.Held("fetcher.attDataCache", c)
+			w.Observe("fetcher.attDataCache(before Fetch)", c)
 			defs = defSet()
 			w.Input("definition-set(Fetch)", defs)
 		}
 		err = f.Fetch(ctx, duty, defs)
 		w.Outcome("Fetch", err)
-		if w.Mode == alias.Clean && (err != nil || called != 2) {
+		if w.Mode == alias.Clean && (err != nil || called != 3) {
 			w.Fail("subscribers called %d times: %v", called, err)
 			return
+		}
+		if c, ok := f.attDataCache.Load(duty.Slot); ok { // still held by the fetcher
+			w.Held("fetcher.attDataCache", c)
 		}
 		w.ObserveUnlessInputMode("definition-set(after)", defs)
 		w.MutateInputs()
